@@ -64,6 +64,7 @@ func (w *World) newExec(fn *ssa.Function, ct *Contract, opts VerifyOpts, cuts ma
 		e.MaxSteps = opts.MaxSteps
 	}
 	e.SafetyOnly = opts.SafetyOnly
+	e.RootCt = ct
 	if ct != nil {
 		e.IntMode = ct.Mode == "int"
 		e.Exact = ct.Exact
@@ -280,6 +281,7 @@ func (e *Exec) applyContract(st *State, fr *Frame, fn *ssa.Function, ct *Contrac
 		e.Notes = append(e.Notes, "recursive call without `decreases`: termination of the recursion not decided")
 	}
 	old := st.clone()
+	objMark := e.nextObj
 	// frame
 	if ct.HasMod {
 		for _, m := range ct.Modifies {
@@ -303,6 +305,7 @@ func (e *Exec) applyContract(st *State, fr *Frame, fn *ssa.Function, ct *Contrac
 	}
 	bindResults(penv, fn, results)
 	for _, en := range ct.Ensures {
+		e.defineFromEnsures(st, penv, en.Expr, objMark)
 		st.assume(penv.Bool(en.Expr))
 	}
 	if st.Dead {
@@ -326,6 +329,55 @@ func (e *Exec) applyContract(st *State, fr *Frame, fn *ssa.Function, ct *Contrac
 		}
 	}
 	return []callRes{{st, packResults(results)}}
+}
+
+// defineFromEnsures: a top-level conjunct `eq(L, R)` of a postcondition, where L is a slice over an object
+// created by this very call (a fresh result, or the havoc'd backing of a modified field) whose contents are
+// still an unconstrained base array, is turned into a definition of those contents: the first len(R) cells
+// are R's elements, the rest stays the unconstrained base. The conjunct itself is still assumed afterwards
+// (it then folds to true unless R mentions L), so this only changes the shape of the fact: reads of L
+// resolve to R's terms instead of needing a quantifier instantiation.
+func (e *Exec) defineFromEnsures(st *State, penv *SpecEnv, x ast.Expr, objMark int) {
+	switch n := x.(type) {
+	case *ast.ParenExpr:
+		e.defineFromEnsures(st, penv, n.X, objMark)
+	case *ast.BinaryExpr:
+		if n.Op == token.LAND {
+			e.defineFromEnsures(st, penv, n.X, objMark)
+			e.defineFromEnsures(st, penv, n.Y, objMark)
+		}
+	case *ast.CallExpr:
+		id, ok := n.Fun.(*ast.Ident)
+		if !ok || id.Name != "eq" || len(n.Args) != 2 {
+			return
+		}
+		switch n.Args[0].(type) {
+		case *ast.Ident, *ast.SelectorExpr:
+		default:
+			return
+		}
+		lv := penv.eval(n.Args[0])
+		sl, ok := lv.V.(*SliceVal)
+		if !ok || sl.Obj == 0 || sl.Obj <= objMark || !sl.Off.IsConst() || sl.Off.C.Sign() != 0 {
+			return
+		}
+		av := e.sliceBacking(st, sl)
+		if !av.Scalar {
+			return
+		}
+		base, ok := av.C.(*ArrBase)
+		if !ok {
+			return
+		}
+		rs := penv.seq(penv.eval(n.Args[1]))
+		if rs.Elem != av.Elem {
+			return
+		}
+		e.arrFnID++
+		nav := *av
+		nav.C = &ArrSplice{Base: base, DstOff: e.idx(0), Src: &ArrFn{ID: e.arrFnID, F: rs.At}, SrcOff: e.idx(0), N: rs.Len}
+		st.Heap[sl.Obj] = e.update(st, e.root(st, sl.Obj), sl.Path, func(Val) Val { return &nav })
+	}
 }
 
 func (e *Exec) posOfOpt(in ssa.Instruction) token.Position {
